@@ -1172,6 +1172,11 @@ def mk_field(e, name):
         # success payload of `?`
         if e[2] == 'Continue' and inner[0] == 'call' and 'Try' in inner[1] and inner[1].endswith('branch') and name == '0':
             return mk_try(inner[2][0])
+        # the residual of `opt.ok_or(E)?` is Err(E)
+        if e[2] == 'Break' and inner[0] == 'call' and 'Try' in inner[1] and inner[1].endswith('branch') and name == '0' and inner[2]:
+            src = peel(inner[2][0], calls=False)
+            if src[0] == 'call' and len(src[2]) == 2 and re.search(r'option::Option::<.*>::ok_or$', src[1]):
+                return ('aggr', 'adt', 'std::result::Result::Err', (('0', src[2][1]),))
         # `match x { Ok(v) => v, .. }` and `x?` name the same value
         if e[2] in ('Ok', 'Some') and name == '0':
             return mk_try(inner)
@@ -1380,6 +1385,7 @@ class Program:
             used |= used2
         merged = unroll_all(merged)
         merged = thread_all(merged)
+        merged = split_all(merged)
         self.inlined_helpers = sorted(used)
         self.spliced_closures = sorted(spliced)
         for path, raw in merged.items():
@@ -3559,5 +3565,126 @@ def unroll_all(raw_by_path):
                     continue
             except (KeyError, IndexError, TypeError):
                 pass
+        out[path] = raw
+    return out
+
+
+# ------------------------------------------------------------------------------------------
+# Path splitting on a selector constant: when every predecessor of a join assigns an integer constant to the same
+# local (`let w = match op { A => 1, B => 2, C => 4, _ => return .. };`) and nothing else ever writes that local, the
+# code after the join is the same code specialised for each constant — i.e. the program with one copy of the tail per
+# match arm, which is how it reads when the arms are written out. The tail (everything reachable from the join) is
+# duplicated per predecessor with the selector and the tail's own temporaries renamed.
+
+def split_const_joins(raw, max_alts=4, max_region=60, max_splits=2):
+    changed_any = False
+    for _ in range(max_splits):
+        blocks = raw['blocks']
+        preds = {}
+        for bi, B in enumerate(blocks):
+            if B.get('cleanup') or not B['term']:
+                continue
+            for tg in _targets_of(B['term']):
+                preds.setdefault(tg, []).append(bi)
+        # number of whole-local definitions per local
+        ndefs = {}
+        for B in blocks:
+            for st in B['stmts']:
+                if st['k'] == 'assign' and not st['place']['p']:
+                    ndefs[st['place']['l']] = ndefs.get(st['place']['l'], 0) + 1
+            t = B['term']
+            if t and t['k'] == 'call' and not t['dest']['p']:
+                ndefs[t['dest']['l']] = ndefs.get(t['dest']['l'], 0) + 1
+        done = False
+        for J, ps in sorted(preds.items()):
+            if not (2 <= len(ps) <= max_alts) or blocks[J].get('cleanup'):
+                continue
+            sel = None
+            vals = []
+            ok = True
+            for p in ps:
+                P = blocks[p]
+                if P['term']['k'] != 'goto' or not P['stmts']:
+                    ok = False
+                    break
+                last = P['stmts'][-1]
+                if last['k'] != 'assign' or last['place']['p'] or last['rv']['k'] != 'use' or last['rv']['op'].get('k') != 'const':
+                    ok = False
+                    break
+                v = last['rv']['op'].get('val')
+                if not isinstance(v, dict) or 'int' not in v:
+                    ok = False
+                    break
+                if sel is None:
+                    sel = last['place']['l']
+                elif sel != last['place']['l']:
+                    ok = False
+                    break
+                vals.append(int(v['int']))
+            if not ok or sel is None or len(set(vals)) != len(vals) or ndefs.get(sel) != len(ps) or sel <= raw['arg_count']:
+                continue
+            # the tail
+            region = set()
+            work = [J]
+            while work:
+                b = work.pop()
+                if b in region:
+                    continue
+                region.add(b)
+                t = blocks[b]['term']
+                work.extend(_targets_of(t) if t else [])
+            if len(region) > max_region or any(p in region for p in ps):
+                continue
+            # temporaries of the tail: defined only there and unused outside
+            defs_in, defs_out = set(), set()
+            for bi, B in enumerate(blocks):
+                tgt = defs_in if bi in region else defs_out
+                for st in B['stmts']:
+                    if st['k'] == 'assign' and not st['place']['p']:
+                        tgt.add(st['place']['l'])
+                tt = B['term']
+                if tt and tt['k'] == 'call' and not tt['dest']['p']:
+                    tgt.add(tt['dest']['l'])
+            cand = defs_in - defs_out - set(range(0, raw['arg_count'] + 1))
+            outside = [B for bi, B in enumerate(blocks) if bi not in region]
+            tail_locals = set(l for l in cand if not _uses_local(outside, {l}))
+            order = sorted(region)
+            for k, p in enumerate(ps):
+                if k == 0:
+                    continue   # the first predecessor keeps the original tail
+                ren = {}
+                for l in sorted(tail_locals | {sel}):
+                    raw['locals'].append(dict(raw['locals'][l]))
+                    ren[l] = len(raw['locals']) - 1
+                base = len(blocks)
+                mp = {b: base + i for i, b in enumerate(order)}
+                for b in order:
+                    nb = _rename_locals(_copy.deepcopy(blocks[b]), ren)
+                    if nb['term']:
+                        nb['term'] = _retarget(nb['term'], lambda x, mp=mp: mp.get(x, x))
+                        if isinstance(nb['term'].get('cleanup'), int):
+                            pass
+                    blocks.append(nb)
+                P = blocks[p]
+                P['stmts'][-1] = _rename_locals(P['stmts'][-1], {sel: ren[sel]})
+                P['term'] = dict(P['term'], target=mp[J])
+            done = True
+            changed_any = True
+            break
+        if not done:
+            break
+    return changed_any
+
+
+def split_all(raw_by_path):
+    out = {}
+    for path, raw in raw_by_path.items():
+        cur = _copy.deepcopy(raw)
+        try:
+            if split_const_joins(cur):
+                out[path] = cur
+                continue
+        except (KeyError, IndexError, TypeError):
+            pass
         out[path] = raw
     return out
